@@ -149,5 +149,32 @@ def check(spec):
                     raise Violation(ID, "flush/split", "after the initial flush %s/%s = %r, pushing the junction contents %r down by the stated law gives %r (pre-flush %r)" % (k[0], k[1], post[k], {"%s/%s" % (j.pop.name, j.name): x for j, x in init.items() if x > 0}, e, pre[k]))
         else:
             feats.add("flush-state-dependent-unchecked-split")
+    # (4) the other entry point for initial conditions: the same pre-flush numbers given as an explicit Initialization of the parameter
+    # set (people placed in junctions included) must be pushed down by the same rule, i.e. give exactly the databook-initialised run
+    import json, zlib
+
+    if any(x > 0 for x in init.values()) and zlib.crc32(json.dumps(spec, sort_keys=True).encode()) % 3 == 0:
+        import atomica as at
+        import sciris as sc
+        from vlib import canon
+
+        try:
+            m0 = at.Model(b["P"].settings, b["P"].framework, b["ps"], b.get("progset"), b.get("instructions"))
+            values = {}
+            for pop in m0.pops:
+                for c in pop.comps:
+                    values[(c.name, pop.name)] = np.array(c._vals[:, 0], dtype=float) if isinstance(c, rp.Timed) else float(np.asarray(c.vals)[0])
+            ps2 = sc.dcp(b["ps"])
+            ps2.initialization = at.parameters.Initialization(values=values, year=float(res.t[0]), dt=float(res.model.dt))
+            res2, _ = simcase.two_step(b["P"], ps2, b.get("progset"), b.get("instructions"))
+        except Violation:
+            raise
+        except Exception as e:
+            raise Violation(ID, "explicit-initialization/raises/%s" % type(e).__name__, "giving the pre-flush state of the databook run as an explicit Initialization made atomica raise %s: %s" % (type(e).__name__, str(e)[:200]))
+        d = canon.compare_results(canon.result_arrays(res), canon.result_arrays(res2), rtol=1e-12)
+        if d is not None:
+            k, i, x, y = d
+            raise Violation(ID, "explicit-initialization/differs", "%s at index %r: %r when initialised from the databook, %r when the same pre-flush numbers (junction contents %r) are given as an explicit Initialization" % (k, i, x, y, {"%s/%s" % (j.pop.name, j.name): x_ for j, x_ in init.items() if x_ > 0}))
+        feats.add("explicit-initialization-with-junction-people")
     nontrivial = "split" in feats or "initial-flush" in feats
     return {"nontrivial": nontrivial, "labels": simcase.labels_of(spec) + ["j:" + f for f in sorted(feats)]}
